@@ -19,6 +19,7 @@ import (
 //	tofile    replace the entry (and everything below it) by a regular file of Len bytes
 //	todir     replace the entry by a directory containing one file
 //	tolink    replace the entry (and everything below it) by a symlink to Dest
+//	tomirror  move the directory aside and replace it by a symlink to the moved copy
 //	retarget  point the symlink to Dest
 type Dmg struct {
 	Path string `json:"path"`
@@ -112,6 +113,12 @@ func ApplyDmg(dir string, d Dmg) error {
 			return err
 		}
 		return os.Symlink(d.Dest, fp)
+	case "tomirror":
+		// "folder moved elsewhere and symlinked back": everything below still resolves
+		if err := os.Rename(fp, fp+".moved"); err != nil {
+			return err
+		}
+		return os.Symlink(filepath.Base(fp)+".moved", fp)
 	case "retarget":
 		if st.Mode()&os.ModeSymlink == 0 {
 			return nil
@@ -282,12 +289,14 @@ func GenDamages(t *rapid.T, signed Tree, maxN int, hidden, whole bool) []Dmg {
 			switch {
 			case k < 8:
 				d.Op = "delete"
-			case k < 14 && hidden:
+			case k < 13 && hidden:
 				d.Op = "tofile"
 				d.Len = rapid.SampledFrom([]int{0, 5, BS + 1}).Draw(t, "tofile-len")
-			case hidden:
+			case k < 17 && hidden:
 				d.Op = "tolink"
 				d.Dest = GenDest(t)
+			case hidden:
+				d.Op = "tomirror"
 			default:
 				d.Op = "delete"
 			}
@@ -338,7 +347,7 @@ func DmgClasses(signed Tree, ds []Dmg) []string {
 			} else {
 				cl = append(cl, "damage:extend-within-last-block")
 			}
-		case "tofile", "todir", "tolink":
+		case "tofile", "todir", "tolink", "tomirror":
 			cl = append(cl, "damage:kind-swap:"+e.Kind+"->"+d.Op[2:])
 			if e.Kind == KDir {
 				for _, c := range signed {
